@@ -395,12 +395,11 @@ class BStr:
         return out
 
     def __repr__(self):
-        return '<BStr cap=%d kind=%s>' % (len(self.ch), self.kind)
+        # constant placeholder: only ever ends up inside diagnostic messages
+        return "'<symbolic text>'" if self.kind == 't' else "b'<symbolic bytes>'"
 
     def __str__(self):
-        if self.kind == 't':
-            return self
-        raise TypeError('str() of symbolic bytes is outside the encoding model')
+        raise TypeError('str() of a symbolic string is outside the encoding model')
 
     def __format__(self, spec):
         raise TypeError('formatting a symbolic string is outside the encoding model')
@@ -463,6 +462,11 @@ def mk(n, cs, kind='t', maxch=None):
             if not _is_const(c):
                 # assumption on a fresh, otherwise unconstrained variable: a valid code point
                 space.add(z3.And(c >= 0, c < lim))
+            elif not (0 <= c.as_long() < lim):
+                # CrossHair may realize an argument before the body runs ("premature realize");
+                # a value outside the assumed domain is an unmet precondition, not a path.
+                from crosshair.util import IgnoreAttempt
+                raise IgnoreAttempt('character outside the assumed range')
         return BStr(_z(n), zs, kind)
 
 
